@@ -120,11 +120,14 @@ class C19(Prop):
         for li, nf in enumerate((150, 260) if tier != "thorough" else (150, 200, 260, 600)):
             text = 'table wide\n"A table with many documented columns"\n(\n' + "".join(
                 f'    {"string" if i % 3 else "uint"} column{i};\t"Documentation of column number {i}, as long as such comments are"\n' for i in range(nf)) + ")\n"
-            lines = ["OPT compress=0 ips=1024 bs=256 zooms=none pass=" + str(1 + li % 2) + " src=iter",
-                     "CHROM chr1 1000", "E chr1 5 9 -", "E chr1 7 20 -", "AUTOSQL " + text.encode().hex()]
-            c = CaseT(f"liblong{li}", "bed", [], lines, tags={"library_schema", "schema_over_8k"})
-            c.expect_fields = nf
-            out.append(c)
+            for dm in ("", " destmax=4096", " destmax=1000"):
+                # also into a destination whose write() takes only part of a large buffer (a chunking wrapper, a pipe): a text
+                # longer than the BufWriter in front of it reaches such a destination in one call
+                lines = ["OPT compress=0 ips=1024 bs=256 zooms=none pass=" + str(1 + li % 2) + " src=iter" + dm,
+                         "CHROM chr1 1000", "E chr1 5 9 -", "E chr1 7 20 -", "AUTOSQL " + text.encode().hex()]
+                c = CaseT(f"liblong{li}{dm[-4:].strip('=')}", "bed", [], lines, tags={"library_schema", "schema_over_8k"} | ({"destination_accepts_short_writes"} if dm else set()))
+                c.expect_fields = nf
+                out.append(c)
         maxlen = 5 if tier == "thorough" else 4
         for L in range(0, maxlen + 1):
             for tup in itertools.product(ALPHA, repeat=L):
